@@ -11,6 +11,7 @@ import (
 	"net"
 	"reflect"
 	"sync"
+	"sync/atomic"
 	"time"
 
 	"github.com/cenkalti/backoff/v4"
@@ -387,6 +388,27 @@ type runner struct {
 	kgBuf   []byte
 }
 
+// credArena models an application that reads all its credentials into one
+// buffer and hands each connection a sub-slice of it (script option
+// "credArena"): a credential's spare capacity is its neighbours' memory.
+var credArena = struct {
+	buf []byte
+	off int64
+}{buf: make([]byte, 1<<22)}
+
+func arenaSlice(v []byte) []byte {
+	if len(v) == 0 {
+		return v
+	}
+	end := atomic.AddInt64(&credArena.off, int64(len(v)))
+	if int(end) > len(credArena.buf) {
+		return append([]byte(nil), v...)
+	}
+	s := credArena.buf[int(end)-len(v) : end]
+	copy(s, v)
+	return s
+}
+
 func keepBuf(buf *[]byte, v []byte) []byte {
 	if len(v) > 0 && len(*buf) == len(v) {
 		copy(*buf, v)
@@ -438,6 +460,10 @@ func (r *runner) invoke(ctx context.Context, s M, ret M) {
 				// the caller keeps one buffer per credential and rewrites it in place between establishments
 				opts.Password = keepBuf(&r.pwBuf, opts.Password)
 				opts.KG = keepBuf(&r.kgBuf, opts.KG)
+			}
+			if o, ok := r.sc["opts"].(map[string]any); ok && o["credArena"] == true {
+				opts.Password = arenaSlice(opts.Password)
+				opts.KG = arenaSlice(opts.KG)
 			}
 			var v2 *bmc.V2Session
 			v2, err = r.conn.NewV2Session(ctx, opts)
